@@ -163,3 +163,34 @@ def all_configs(domains):
 
 def dense(op):
     return op.to_dense() if hasattr(op, "to_dense") else op
+
+
+def total_derivative_check(S, ref, leaves, atoms, label, fd=True):
+    """gradient oracle (DESIGN 2.6): for every input atom a,
+         sum_leaves <leaf.grad shadow, d(leaf shadow)/da>  ==  d(ref)/da
+    where leaf.grad comes from the real backward pass (autograd + hand-written backward functions, shadowed) and the
+    right-hand side from the independent symbolic differentiator applied to the dense reference expression."""
+    from symten.diff import Differ, fd_validate
+    from symten import as_sym_arr
+    ok = True
+    for name in atoms:
+        a = CTX.atoms[name]
+        Df = Differ(a)
+        want = Df.Dsym(ref)
+        if fd and not S.replay:
+            fd_validate(ref, name, want)
+        got = Sym.const(0.0)
+        for t, shadow in leaves:
+            if t.grad is None:
+                continue
+            g = as_sym_arr(SH.get(t.grad))
+            sh = as_sym_arr(shadow)
+            for idx in np.ndindex(*sh.shape):
+                if sh[idx].is_const():
+                    continue
+                dl = Df.Dsym(sh[idx])
+                if dl.is_const() and dl.c == 0:
+                    continue
+                got = got + g[idx] * dl
+        ok &= S.prove_eq(np.array([got], dtype=object), np.array([want], dtype=object), "%s d/d%s" % (label, name))
+    return ok
